@@ -10,6 +10,12 @@ VAgree answer certifies the output); independently the DEFINITION (k-th largest 
 exact integer arithmetic on the implementation's output at a set of abscissae that determines both
 piecewise-linear functions completely (predicate), and once more inside Coq with land / pl_eval
 (Corr/SweepCorr.v: spec_twin); the two spec evaluations must agree with each other.
+Beyond single eager constructions the generator exercises (i) object usages: an object built with compute=False
+and put through partial accesses first (one depth, a slice, a norm) must afterwards hold the COMPLETE landscape, and
+every depth handed out on the way must be the definition's; (ii) call histories in one process on shared argument
+objects (harness/history.py): the same list of diagrams passed to several constructors, diagrams that differ below
+print precision, calls that raise half-way followed by clean ones.  Usage cases go through the Coq model like any
+other case (their final critical_pairs); history steps are judged by the spec predicate only.
 Known finding C03-dup-shortcut: attributed only if the hook trace says the shortcut fired AND the
 output equals the Legacy model (finding_of).
 """
@@ -17,7 +23,7 @@ import json
 import math
 from fractions import Fraction
 
-from .. import core
+from .. import core, history
 
 PID = "C03"
 THEOREMS = [
@@ -40,8 +46,22 @@ RULE = ("exact family: bars with integer / half-integer endpoints (scaled by 2^k
         "(thorough: 9-12 bars in 15% of the cases, plus every multiset of <= 3 integer bars in [0,6]); "
         "tolerance family 'offgrid': random doubles with ties made by copying coordinates, compared within "
         "2^-46 x largest magnitude; "
+        "object usages ('usage', 100 quick / 4000 thorough, any of the classes above): the object is built with "
+        "compute=False (80%) or eagerly and then put through 1-4 calls, the first of which usually asks for a PART of the "
+        "landscape (compute_landscape_by_depth(k), P[k], P[a:b]; else compute_landscape, -P, 2*P, P+P, sup_norm, p_norm); "
+        "calls that raise are recorded and not judged; judged are the critical_pairs / max_depth read off the object "
+        "AFTER the calls (complete landscape, all depths) and every depth a call handed out on the way; "
+        "call histories in one process on SHARED argument objects (harness/history.py; 24 quick / 500 thorough, 3-9 steps, "
+        "every step judged by the same predicate): 'reuse' one list of 2-3 diagrams (ndarray / list / tuple rows) handed to "
+        "several constructors, every degree in turn, lazily and eagerly, the first degree again at the end, optionally an "
+        "out-of-range degree in between; 'near' a diagram, then copies that differ in ONE coordinate of one (middle) row by "
+        "2^-40..2^-24 (relative to 64) or by 1/2, 1, then the first one again, also as two degrees of one list; "
+        "'fault' a construction that raises half-way through the sweep (a row with three entries) or at once "
+        "(degree out of range) between clean calls on the same objects; 'default_arg' 3-4 lazily built objects on different "
+        "diagrams one after the other, then the first diagram eagerly; history steps are drawn only from diagrams on which "
+        "the repeated-bar shortcut (open finding C03-dup-shortcut) is silent, so a failing step is never attributed to it; "
         "non-trivial = the selected diagram has >= 2 finite bars of which at least two have intersecting supports "
-        "and the property predicate passes; distinct = distinct JSON input")
+        "and the property predicate passes (a history: at least two such steps); distinct = distinct JSON input")
 TRUSTED_BASE = [
     "Coq 8.16.1 kernel, vm_compute (no native_compute)",
     "Q/nat/list development, closed under the global context (no axioms); the six real-t theorems "
@@ -51,7 +71,9 @@ TRUSTED_BASE = [
     "axioms of the classical reals ClassicalDedekindReals.sig_forall_dec and "
     "FunctionalExtensionality.functional_extensionality_dep",
     "hand-written model Model/SweepM.v of exact.py lines 124-125 and 257-364",
-    "harness: generator, float -> exact rational printer, exception -> outcome mapping, verdict parser",
+    "harness: generator, float -> exact rational printer, exception -> outcome mapping, verdict parser; "
+    "call histories (harness/history.py) are judged by the spec predicate only (no model run); the generation-time filter "
+    "'shortcut silent' of history steps uses the Python transliteration reference_sweep of Model/SweepM.v",
 ]
 ASSUMPTIONS = [
     "inputs of the exact family are dyadic rationals on which every float operation of the sweep ((b+d)/2, "
@@ -59,6 +81,10 @@ ASSUMPTIONS = [
     "off-grid family binary64 rounding of (b+d)/2 and (d-b)/2 is bounded by the stated tolerance, not proved",
     "numpy semantics of list(array), sorted with key [b,-d], list == list on numpy scalars as modelled",
     "an infinite bar that is not the last row of the diagram is outside the property (the code keeps it)",
+    "the landscape of a lazily built object (compute=False) is what critical_pairs holds after compute_landscape() has "
+    "been called on it; P[k], P[a:b] and compute_landscape_by_depth(k) hand out the critical points of the 0-based depth "
+    "k, i.e. of the definition's (k+1)-th largest tent; whether such a call raises (compute_landscape_by_depth raises "
+    "TypeError on a not-yet-computed object in the pinned code) is not part of the property",
 ]
 COQ_DEPS = ["Corr/SweepCorr.vo", "Proofs/SweepCorrP.vo"]
 FID_DUP = "C03-dup-shortcut"
@@ -292,9 +318,172 @@ def _one_case(rng, cls=None, big=False):
     return {"cls": cls, "dgms": dgms, "hom_deg": h, "repr": rep}
 
 
+# ---- object usages: the landscape is obtained from ONE object through a sequence of calls ------------------
+
+def _ops(rng, n):
+    """a short sequence of calls on one PersLandscapeExact object.  The first call usually asks for a PART of
+    the landscape (one depth, a slice); the later ones are the calls that rely on the stored landscape."""
+    def k():
+        return rng.choice([0, 0, 1, 1, 2, rng.randint(0, max(0, n))])
+
+    def one(partial):
+        r = rng.random()
+        if r < (0.35 if partial else 0.2):
+            return ["by_depth", k()]
+        if r < (0.55 if partial else 0.35):
+            return ["getitem", k()]
+        if r < (0.65 if partial else 0.45):
+            a = rng.randint(0, max(0, n - 1))
+            return ["slice", a, a + rng.randint(1, 3)]
+        return rng.choice([["compute"], ["neg"], ["mul", 2.0], ["sup_norm"], ["p_norm", 2], ["add_self"], ["compute"]])
+    return [one(True)] + [one(False) for _ in range(rng.randint(0, 3))]
+
+
+USAGE_BASES = ["nested", "overlapping", "disjoint", "touching", "equal_births", "equal_deaths", "repeated", "collision",
+               "random", "random", "random", "scale", "trailing_inf", "homdeg", "homdeg", "homdeg_oob", "empty",
+               "repr", "repr", "offgrid", "translated", "tinygap"]
+
+
+def _usage_case(rng, big=False):
+    """an ordinary case plus 'lazy' (constructed with compute=False) and 'ops'; the observed landscape is the
+    object's critical_pairs AFTER the calls, and every depth a call handed out on the way is observed as well"""
+    c = _one_case(rng, cls=rng.choice(USAGE_BASES), big=big)
+    h = c["hom_deg"]
+    n = len(c["dgms"][h]) if h < len(c["dgms"]) else 2
+    c["base_cls"] = c["cls"]
+    c["cls"] = "usage"
+    c["lazy"] = rng.random() < 0.8
+    c["ops"] = _ops(rng, n)
+    return c
+
+
+# ---- call histories: several constructions / usages in ONE process on SHARED diagram objects ----------------
+
+def _shortcut_silent(c):
+    """generation-time filter for history steps: the selected diagram is in the property's domain and the
+    repeated-bar shortcut of the pinned code (open finding C03-dup-shortcut) stays silent on it, so that on the
+    unchanged tree every step of a history satisfies the property and any failing step is a new effect"""
+    bars, exc = _selected(c)
+    if exc == "IndexError":
+        return True
+    if exc or not bars or any(d <= b for b, d in bars):
+        return False
+    return not reference_sweep(bars, shortcut=True)[1]
+
+
+def _silent_case(rng, classes, tries=60):
+    for _ in range(tries):
+        c = _one_case(rng, cls=rng.choice(classes))
+        if _shortcut_silent(c) and len(_selected(c)[0] or []) >= 2:
+            return c
+    return {"cls": "random", "dgms": [[[0.0, 4.0], [1.0, 6.0], [2.0, 3.0]]], "hom_deg": 0, "repr": "float"}
+
+
+def _as_usage(rng, c, lazy=None):
+    c = dict(c)
+    h = c["hom_deg"]
+    c["lazy"] = (rng.random() < 0.8) if lazy is None else lazy
+    c["ops"] = _ops(rng, len(c["dgms"][h]) if h < len(c["dgms"]) else 2)
+    return c
+
+
+SMALL_EXACT = ["nested", "overlapping", "touching", "equal_births", "equal_deaths", "collision", "random", "random"]
+
+
+def _nudged(rng, bars):
+    """a diagram that differs from `bars` in ONE coordinate of one bar (preferably a middle row) by a dyadic
+    amount far below print precision (2^-40 .. 2^-24 for coordinates below 64, scaled up with the coordinates
+    otherwise) or by a visible one; still exact in binary64 (every sum keeps <= 48 significant bits)"""
+    out = [list(x) for x in bars]
+    j = rng.randrange(len(out)) if len(out) < 3 or rng.random() < 0.3 else rng.randrange(1, len(out) - 1)
+    m = max(abs(v) for r in out for v in r if v != "inf")
+    unit = 2.0 ** max(0, math.ceil(math.log2(m + 1)) - 6)      # 1 for coordinates below 64
+    delta = rng.choice([unit * 2.0 ** -40, unit * 2.0 ** -40, unit * 2.0 ** -33, unit * 2.0 ** -27, unit * 2.0 ** -24,
+                        0.5, 1.0]) * rng.choice([1, -1])
+    i = rng.randrange(2)
+    if out[j][1] == "inf":
+        i = 0
+    out[j][i] = out[j][i] + delta
+    if out[j][1] != "inf" and out[j][1] - out[j][0] <= 0:
+        out[j][i] = out[j][i] - 2 * delta
+    return out
+
+
+def _history(rng):
+    kind = rng.choice(["reuse", "reuse", "near", "near", "fault", "default_arg"])
+
+    def plain(dgms, h, rep="float"):
+        return {"cls": "step", "dgms": dgms, "hom_deg": h, "repr": rep}
+    if kind == "reuse":
+        # one list of diagrams (as ripser returns it) handed to several constructors: every degree in turn,
+        # lazily and eagerly, the same degree again at the end -- all steps receive THE SAME list / ndarray objects
+        k = rng.randint(2, 3)
+        parts = [_silent_case(rng, SMALL_EXACT + ["translated", "tinygap", "scale", "trailing_inf"]) for _ in range(k)]
+        dgms = [p["dgms"][p["hom_deg"]] for p in parts]
+        rep = rng.choice(["float", "float", "list", "list", "tuple"])
+        order = [rng.randrange(k) for _ in range(rng.randint(3, 5))]
+        steps = []
+        for i, h in enumerate(order + [order[0]]):
+            s = plain(dgms, h, rep)
+            if rng.random() < 0.6:
+                s = _as_usage(rng, s)
+            steps.append(s)
+        if rng.random() < 0.3:
+            steps.insert(rng.randint(1, len(steps) - 1), plain(dgms, k + rng.randint(0, 1), rep))   # IndexError expected
+    elif kind == "near":
+        # a diagram, then diagrams that differ from it in one coordinate by less than print precision (or look the
+        # same in their first and last rows), then the first one again: a result remembered under a coarse key
+        a = _silent_case(rng, SMALL_EXACT)
+        A = a["dgms"][a["hom_deg"]]
+        vs = []
+        for _ in range(rng.randint(1, 3)):
+            for _ in range(20):
+                B = _nudged(rng, A)
+                if _shortcut_silent(plain([B], 0)):
+                    vs.append(B)
+                    break
+        steps = [plain([A], 0)]
+        for B in vs:
+            steps.append(plain([B], 0))
+            if rng.random() < 0.5:
+                steps.append(_as_usage(rng, plain([A, B], rng.randrange(2))))
+        steps.append(_as_usage(rng, plain([A], 0)) if rng.random() < 0.5 else plain([A], 0))
+        if vs and rng.random() < 0.5:
+            steps.append(plain([vs[0], A], 0))
+    elif kind == "fault":
+        # a construction that raises half-way through the sweep (a row with three entries is unpacked only when
+        # the sweep reaches it) or at once (degree out of range), followed by clean calls on the same objects
+        a = _silent_case(rng, SMALL_EXACT + ["translated", "trailing_inf"])
+        A = a["dgms"][a["hom_deg"]]
+        fin = [r for r in A if r[1] != "inf"]
+        bad = [list(r) for r in fin]
+        j = rng.randrange(len(bad))
+        bad.insert(j + 1, [bad[j][0] + 0.25, bad[j][1] + rng.choice([0.25, 3.0]), 1.0])
+        rep = rng.choice(["float", "list"])
+        steps = [plain([A], 0, rep) if rng.random() < 0.5 else _as_usage(rng, plain([A], 0, rep)),
+                 {"cls": "step", "fault": True, "raw": bad, "dgms": [[]], "hom_deg": 0, "repr": "list",
+                  "lazy": rng.random() < 0.5, "ops": [["by_depth", 0], ["getitem", 1]]},
+                 _as_usage(rng, plain([A], 0, rep)),
+                 plain([A], 1, rep),                                                    # IndexError expected
+                 plain([A], 0, rep)]
+        if rng.random() < 0.5:
+            steps.append(_as_usage(rng, plain([_silent_case(rng, SMALL_EXACT)["dgms"][0]], 0)))
+    else:
+        # several lazily built objects one after the other (they share whatever the constructor's default
+        # arguments and the class keep between instances), different diagrams
+        steps = []
+        for _ in range(rng.randint(3, 4)):
+            a = _silent_case(rng, SMALL_EXACT + ["tinygap"])
+            steps.append(_as_usage(rng, plain([a["dgms"][a["hom_deg"]]], 0), lazy=True))
+        steps.append(plain(steps[0]["dgms"], 0))
+    return history.make(kind, steps)
+
+
 def generate(rng, tier):
     n_cases = 1500 if tier == "quick" else 60000
     cases = [_one_case(rng, big=(tier != "quick")) for _ in range(n_cases)]
+    cases += [_usage_case(rng, big=(tier != "quick")) for _ in range(100 if tier == "quick" else 4000)]
+    cases += [_history(rng) for _ in range(24 if tier == "quick" else 500)]
     if tier == "thorough":
         # bounded-exhaustive: every multiset of <= 3 bars on the integer grid 0..6 (in sorted order and reversed)
         grid = [[float(b), float(d)] for b in range(0, 6) for d in range(b + 1, 7)]
@@ -308,7 +497,7 @@ def generate(rng, tier):
 
 
 def search_generate(rng, n):
-    return [_one_case(rng) for _ in range(n)]
+    return [(_usage_case(rng) if rng.random() < 0.15 else _one_case(rng)) for _ in range(n)]
 
 
 def corpus():
@@ -352,50 +541,123 @@ def _alarm(signum, frame):
 CASE_TIMEOUT_S = 5      # the sweep on <= 9 bars takes well under a millisecond; a mutated loop may not terminate
 
 
-def impl_run(cases):
-    import numpy as np
-    from persim.landscapes import PersLandscapeExact
+_rt = {"n_timeouts": 0, "trace": None, "ready": False}
+
+
+def _setup():
     import signal
     import sys
+    from persim.landscapes import PersLandscapeExact  # noqa
     signal.signal(signal.SIGALRM, _alarm)
-    n_timeouts = 0
     mod = sys.modules["persim.landscapes.exact"]
-    trace = getattr(mod, "_verif_trace", None)
-    outs = []
-    for c in cases:
-        rep = c.get("repr", "float")
-        dg = []
-        for d in c["dgms"]:
-            rows = [[_f(b), _f(e)] for b, e in d]
-            if rep == "list":
-                dg.append(rows)
-            elif rep == "tuple":
-                dg.append(tuple(tuple(r) for r in rows))
-            elif rep == "int" and rows and all(float(v).is_integer() for r in rows for v in r):
-                dg.append(np.array(rows, dtype=np.int64).reshape(-1, 2))
-            else:
-                dg.append(np.array(rows, dtype=float).reshape(-1, 2))
-        if trace is not None:
-            del trace[:]
+    _rt.update(n_timeouts=0, trace=getattr(mod, "_verif_trace", None), ready=True)
+
+
+def _container(rows, rep):
+    import numpy as np
+    if rep == "list":
+        return [list(r) for r in rows]
+    if rep == "tuple":
+        return tuple(tuple(r) for r in rows)
+    if rep == "int" and rows and all(float(v).is_integer() for r in rows for v in r):
+        return np.array(rows, dtype=np.int64).reshape(-1, 2)
+    return np.array(rows, dtype=float).reshape(-1, 2)
+
+
+def _build(c, memo):
+    """the `dgms` argument.  Equal-valued diagrams (and equal-valued lists of diagrams) of different steps of one
+    history are THE SAME objects (interned in memo); an ordinary case has a memo of its own."""
+    rep = c.get("repr", "float")
+    if c.get("raw") is not None:         # a malformed diagram, handed over as nested lists exactly as written
+        return [history.intern(memo, ["raw", c["raw"]], lambda: [list(r) for r in c["raw"]])]
+
+    def outer():
+        return [history.intern(memo, ["dgm", d, rep], lambda d=d: _container([[_f(b), _f(e)] for b, e in d], rep))
+                for d in c["dgms"]]
+    return history.intern(memo, ["dgms", c["dgms"], rep], outer)
+
+
+def _depth(d):
+    return [[float(x), float(y)] for x, y in d]
+
+
+def _run_ops(P, ops):
+    """the calls of a usage case, in order; a call that raises is recorded and the sequence goes on.  Calls that
+    hand out critical points report which depths (0-based) they claim to be."""
+    res = []
+    for op in ops:
         try:
-            if n_timeouts >= 20:
-                raise _Timeout("not run: 20 earlier cases of this batch did not terminate")
-            signal.setitimer(signal.ITIMER_REAL, CASE_TIMEOUT_S if n_timeouts == 0 else 0.25)
-            try:
+            name = op[0]
+            if name == "by_depth":
+                r = P.compute_landscape_by_depth(op[1])
+                res.append({"idx": [op[1]], "ret": [_depth(r)]})
+            elif name == "getitem":
+                r = P[op[1]]
+                res.append({"idx": [op[1]], "ret": [_depth(r)]})
+            elif name == "slice":
+                r = P[op[1]:op[2]]
+                res.append({"idx": list(range(op[1], op[1] + len(r))), "ret": [_depth(d) for d in r]})
+            else:
+                if name == "compute":
+                    P.compute_landscape()
+                elif name == "neg":
+                    -P
+                elif name == "mul":
+                    P * op[1]
+                elif name == "sup_norm":
+                    P.sup_norm()
+                elif name == "p_norm":
+                    P.p_norm(op[1])
+                elif name == "add_self":
+                    P + P
+                res.append({})
+        except _Timeout:
+            raise
+        except Exception as e:  # noqa
+            res.append({"error": type(e).__name__, "msg": str(e)[:120]})
+    return res
+
+
+def impl_call(c, memo):
+    """one case: build the argument, construct the landscape (eagerly, or lazily followed by the calls of
+    c['ops'] and a final compute_landscape()), read critical_pairs / max_depth off the object"""
+    import signal
+    from persim.landscapes import PersLandscapeExact
+    if not _rt["ready"]:
+        _setup()
+    trace = _rt["trace"]
+    dg = _build(c, memo)
+    if trace is not None:
+        del trace[:]
+    o = {}
+    try:
+        if _rt["n_timeouts"] >= 20:
+            raise _Timeout("not run: 20 earlier cases of this batch did not terminate")
+        signal.setitimer(signal.ITIMER_REAL, CASE_TIMEOUT_S if _rt["n_timeouts"] == 0 else 0.25)
+        try:
+            if "ops" in c:
+                P = PersLandscapeExact(dgms=dg, hom_deg=c["hom_deg"], compute=not c.get("lazy", True))
+                o["ops"] = _run_ops(P, c["ops"])
+                P.compute_landscape()
+            else:
                 P = PersLandscapeExact(dgms=dg, hom_deg=c["hom_deg"])
-            finally:
-                signal.setitimer(signal.ITIMER_REAL, 0)
-            cps = [[[float(x), float(y)] for x, y in depth] for depth in P.critical_pairs]
-            bad = any(not math.isfinite(v) for depth in cps for p in depth for v in p)
-            o = {"cps": cps if not bad else [[[repr(x), repr(y)] for x, y in depth] for depth in cps],
-                 "nonfinite": bad, "max_depth": int(P.max_depth)}
-        except (Exception, _Timeout) as e:  # noqa
-            n_timeouts += isinstance(e, _Timeout)
-            o = {"error": type(e).__name__.lstrip("_"), "msg": str(e)[:200]}
-        o["hook"] = trace is not None
-        o["trace"] = [list(t) for t in trace] if trace is not None else None
-        outs.append(o)
-    return outs
+        finally:
+            signal.setitimer(signal.ITIMER_REAL, 0)
+        cps = [[[float(x), float(y)] for x, y in depth] for depth in P.critical_pairs]
+        bad = any(not math.isfinite(v) for depth in cps for p in depth for v in p)
+        o.update({"cps": cps if not bad else [[[repr(x), repr(y)] for x, y in depth] for depth in cps],
+                  "nonfinite": bad, "max_depth": int(P.max_depth)})
+    except (Exception, _Timeout) as e:  # noqa
+        _rt["n_timeouts"] += isinstance(e, _Timeout)
+        o = {"error": type(e).__name__.lstrip("_"), "msg": str(e)[:200]}
+    o["hook"] = trace is not None
+    o["trace"] = [list(t) for t in trace] if trace is not None else None
+    return o
+
+
+def impl_run(cases):
+    _setup()
+    return [history.run(c, impl_call) if history.is_hist(c) else impl_call(c, {}) for c in cases]
 
 
 # ------------------------------------------------------------------------------------ the SPEC (independent)
@@ -423,6 +685,45 @@ def _not_run(o):
 
 
 def predicate(c, o):
+    if history.is_hist(c):
+        return history.predicate(c, o, predicate)
+    if "ops" in c:
+        return _predicate_usage(c, o)
+    return _predicate_one(c, o)
+
+
+def _predicate_usage(c, o):
+    """the landscape read off the object after the calls must be the definition's, and so must every depth that
+    a call handed out on the way (P[k], P[a:b], compute_landscape_by_depth(k); 0-based depth k = the definition's
+    (k+1)-th largest tent).  Calls that raise are not judged."""
+    ok, detail = _predicate_one(c, o)
+    if not ok or "error" in o or _not_run(o):
+        return ok, detail
+    bars, exc = _selected(c)
+    if exc or any(d <= b for b, d in bars):
+        return True, ""
+    rs = o.get("ops")
+    if rs is None or len(rs) != len(c["ops"]):
+        return False, "usage-harness: no record of the calls in %r" % (o,)
+    for j, (op, r) in enumerate(zip(c["ops"], rs)):
+        for idx, depth in zip(r.get("idx", []), r.get("ret", [])):
+            if idx < 0 or (idx < len(o["cps"]) and depth == o["cps"][idx]):
+                continue            # the very points of the final landscape, which has just been checked
+            if any(not math.isfinite(v) for p in depth for v in p):
+                return False, "usage-view: call %d %s returned non-finite critical points for depth %d" % (j, op, idx)
+            cps2 = [list(d) for d in o["cps"]]
+            while len(cps2) <= idx:
+                cps2.append([])
+            cps2[idx] = depth
+            ok2, d2 = _predicate_one(c, {"cps": cps2, "max_depth": None})
+            if not ok2:
+                return False, ("usage-view: call %d %s on the %s object handed out, as depth %d (0-based), critical "
+                               "points that are not the definition's: %s"
+                               % (j, op, "lazily built" if c.get("lazy", True) else "computed", idx, d2))
+    return True, ""
+
+
+def _predicate_one(c, o):
     if _not_run(o):
         return True, ""        # not evaluated (circuit breaker after 20 non-terminating cases, each reported)
     bars, exc = _selected(c)
@@ -552,6 +853,8 @@ def _predicate_tol(bars, cps):
 
 
 def nontrivial(c, o):
+    if history.is_hist(c):
+        return history.nontrivial(c, o, nontrivial)
     bars, exc = _selected(c)
     if exc or not bars or len(bars) < 2 or "error" in o:
         return False
@@ -597,6 +900,9 @@ def _terms(cases, outs):
     early = {}
     terms, idx, tw_terms, tw_idx = [], [], [], []
     for i, (c, o) in enumerate(zip(cases, outs)):
+        if history.is_hist(c):
+            early[i] = "skip:history (every step is judged by the spec predicate)"
+            continue
         oc = _coq_outcome(o)
         if _not_run(o):
             early[i] = "skip:not run (earlier cases of the batch did not terminate)"
@@ -682,7 +988,7 @@ def coq_judge(cases, outs, results):
             v = "disagree:model run failed (%s)" % t
         if i in twin and not v.startswith("disagree"):
             try:
-                okp = predicate(cases[i], outs[i])[0]
+                okp = _predicate_one(cases[i], outs[i])[0]
             except Exception:
                 okp = False
             if twin[i] not in ("true", "false"):
@@ -752,6 +1058,8 @@ def finding_of(c, o, detail):
     this input (guarded hook trace; recomputed by the reference when the hook is absent) and (ii) the
     implementation's critical_pairs equal the Legacy model's.  Nothing else is ever attributed: the IndexError
     on an empty diagram (C03-empty-diagram, repaired in /repo) is a VIOLATION if it returns."""
+    if history.is_hist(c):
+        return None            # history steps are generated with the shortcut silent: a failing step is never the finding
     bars, exc = _selected(c)
     if exc:
         return None
@@ -774,6 +1082,19 @@ def finding_of(c, o, detail):
 
 
 def shrink_candidates(c):
+    if history.is_hist(c):
+        yield from history.shrink(c)
+        if len(c["seq"]) == 1 and not c["seq"][0].get("fault"):
+            yield c["seq"][0]           # a single failing step is not a history effect: report the step itself
+        return
+    if "ops" in c:
+        ops = c["ops"]
+        for j in range(len(ops)):
+            d = dict(c); d["ops"] = ops[:j] + ops[j + 1:]; yield d
+        if not ops:
+            d = {k: v for k, v in c.items() if k not in ("ops", "lazy")}; yield d
+    if c.get("fault") or c.get("raw") is not None:
+        return
     dg = c["dgms"]
     h = c["hom_deg"]
     if len(dg) > 1:
